@@ -4,6 +4,7 @@ import RbV.Lemmas.QGram
 import RbV.Lemmas.KChain
 import RbV.Lemmas.QGramIter
 import RbV.Lemmas.QGramExact
+import RbV.Lemmas.QGramMatches
 /-!
 # C19 — k-mer / q-gram indexing and sparse chaining are exact
 
@@ -150,6 +151,30 @@ theorem exact_matches_are_maximal_exact_matches (mc q : Nat) (pat text : List Na
       ∃ L, pe = ps + L ∧ te = ts + L ∧ q ≤ L ∧ Agree pat text ps ts L ∧
         ¬ (0 < ps ∧ 0 < ts ∧ SymEq pat text (ps - 1) (ts - 1)) ∧ ¬ SymEq pat text (ps + L) (ts + L) :=
   exactMatchesRef_iff_maximal mc q hq hmc ps pe ts te
+
+/-- **mirror model of `matches`** (hits visited by ascending pattern position; one record per diagonal in a map:
+vacant ⇒ record of the hit, occupied ⇒ new stops and `count + 1`; finally `count ≥ min_count`) reports exactly the
+records of the declarative reference (per diagonal: least/greatest hit position, `+ q`, number of hits) — for every
+pattern, text, q, `max_count` and `min_count`, also when the pattern position is ahead of the text position. -/
+theorem matches_model_refines (mc q minc : Nat) (pat text : List Nat) (r : MatchRec) :
+    r ∈ matchesModel mc q minc pat text ↔ r ∈ matchesRef mc q minc pat text :=
+  matchesModel_mem_iff mc q minc pat text r
+
+/-- what a record of the reference is: the diagonal carries a hit, and the record holds its least / greatest hit
+positions (+ q) and its number of hits, which is at least `minc` -/
+theorem matchesRef_spec (mc q minc : Nat) (pat text : List Nat) (r : MatchRec) :
+    r ∈ matchesRef mc q minc pat text ↔
+      ∃ d : Int, (∃ h ∈ hits mc q pat text, diag h = d) ∧ r = diagRec q (hits mc q pat text) d ∧ minc ≤ r.2.2.2.2 := by
+  unfold matchesRef
+  simp only [List.mem_filter, List.mem_map, mem_dedupInt, decide_eq_true_eq]
+  constructor
+  · rintro ⟨⟨d, ⟨h, hh, hd⟩, rfl⟩, hc⟩
+    exact ⟨d, ⟨h, hh, hd⟩, rfl, hc⟩
+  · rintro ⟨d, ⟨h, hh, hd⟩, rfl, hc⟩
+    exact ⟨⟨d, ⟨h, hh, hd⟩, rfl⟩, hc⟩
+
+example : matchesModel 9 2 1 [3, 1, 2, 3] [1, 2, 3, 1, 2] = [(0, 3, 2, 5, 2), (1, 4, 0, 3, 2)] ∧
+    matchesRef 9 2 1 [3, 1, 2, 3] [1, 2, 3, 1, 2] = [(0, 3, 2, 5, 2), (1, 4, 0, 3, 2)] := by decide
 
 /-- any text of length `n` masks nothing when `mc ≥ n + 1` -/
 theorem nothing_masked (mc : Nat) (text : List Nat) (h : text.length + 1 ≤ mc) (g : List Nat) :
